@@ -59,6 +59,7 @@ def parseOp : SExp → Option Op
   | .list [.atom "imgget", n] => do some (.fget true (← asStr? n))
   | .list [.atom "datget", n] => do some (.fget false (← asStr? n))
   | .list [.atom "save", a, b] => do some (.save (← asInt? a) (← asInt? b))
+  | .list [.atom "saveas", a, b] => do some (.saveas (← asInt? a) (← asInt? b))
   | .list [.atom "xpart", p, a, v, t] => do some (.xpart (← parsePart p) (← parseAct a v) (← optInt? t))
   | .list [.atom "xglyph", ln, gn, a, v, t] => do
     some (.xglyph (← asStr? ln) (← asStr? gn) (← parseAct a v) (← optInt? t))
@@ -186,6 +187,7 @@ def driverStep (ds : DState) (line : SExp) : DState × SExp :=
         let (s1, r) := step s op
         match op, r with
         | .save _ _, .err _ => ({ ds with failed := true }, .list [.atom "err", .atom "save-failed"])
+        | .saveas _ _, .err _ => ({ ds with failed := true }, .list [.atom "err", .atom "save-failed"])
         | _, .err e => ({ ds with st := s1 }, .list [encErr e, encSnapshot s1])
         | _, r => ({ ds with st := s1 }, .list [.atom "ok", encRes s1 r, encSnapshot s1])
 
